@@ -307,6 +307,12 @@ class bspline(object):
         n = gb.size - self.nord
         indx = np.zeros((x.size,), dtype='i4')
         ileft = self.nord - 1
+        #
+        # A repeated lowest breakpoint (e.g. everyn=1 on data whose minimum
+        # occurs twice) makes the first interval(s) empty: start after them.
+        #
+        while ileft < n - 1 and gb[ileft+1] <= gb[ileft]:
+            ileft += 1
         for i in range(x.size):
             while x[i] > gb[ileft+1] and ileft < n - 1:
                 ileft += 1
